@@ -58,4 +58,5 @@ Spec == Init /\ [][Next]_vars
 NotAccepted == l <= Len(Tr)
 Progress == TLCSet(1, IF TLCGet(1) < l THEN l ELSE TLCGet(1))
 Post == PrintT(<<"MAXL", TLCGet(1), Len(Tr)>>)
+Short == [l |-> l]
 ====
